@@ -9,6 +9,10 @@ use crate::stats::{site_class, Stats, C};
 use std::fmt;
 use std::io;
 
+/// A re-entrant operation supplied by the run: performs another operation of the crate on the
+/// current thread and returns a description if its result is not what it must be.
+pub type Nested<'a> = Option<&'a dyn Fn() -> Option<String>>;
+
 // ------------------------------------------------------------------------------------------------
 // Storage medium
 
@@ -55,6 +59,8 @@ pub struct WriteCtl {
     pub fault_call_indices: Vec<usize>,
     pub lens: Vec<usize>,
     pub flush_calls: usize,
+    pub nested_errors: Vec<String>,
+    pub reentered: usize,
 }
 
 impl WriteCtl {
@@ -81,6 +87,8 @@ impl WriteCtl {
             fault_call_indices: Vec::new(),
             lens: Vec::new(),
             flush_calls: 0,
+            nested_errors: Vec::new(),
+            reentered: 0,
         }
     }
 }
@@ -89,6 +97,7 @@ pub struct SimWriter<'a> {
     pub disk: &'a mut Disk,
     pub ctl: &'a mut WriteCtl,
     pub stats: &'a mut Stats,
+    pub nested: Nested<'a>,
 }
 
 fn draw_write(rng: &mut Option<Rng>, cfg: &FaultCfg, len: usize) -> Option<WDec> {
@@ -120,6 +129,9 @@ fn draw_write(rng: &mut Option<Rng>, cfg: &FaultCfg, len: usize) -> Option<WDec>
     }
     if cfg.w_short > 0 && len >= 2 && rng.chance(cfg.w_short) {
         return Some(WDec::Short(1 + rng.usize_below(len - 1)));
+    }
+    if cfg.w_reenter > 0 && rng.chance(cfg.w_reenter) {
+        return Some(WDec::Reenter);
     }
     Some(WDec::Accept)
 }
@@ -158,6 +170,22 @@ impl<'a> io::Write for SimWriter<'a> {
             WDec::Accept => {
                 self.disk.bytes.extend_from_slice(buf);
                 self.stats.inc(C::w_accept);
+                Ok(len)
+            }
+            WDec::Reenter => {
+                if let Some(f) = self.nested {
+                    self.ctl.reentered += 1;
+                    self.stats.inc(C::w_reenter);
+                    self.stats.reach.insert((site, 12, 1));
+                    match f() {
+                        None => self.stats.inc(C::nested_ops_ok),
+                        Some(e) => {
+                            self.stats.inc(C::nested_ops_wrong);
+                            self.ctl.nested_errors.push(e);
+                        }
+                    }
+                }
+                self.disk.bytes.extend_from_slice(buf);
                 Ok(len)
             }
             WDec::Short(n) => {
@@ -398,6 +426,9 @@ pub struct SimReader<'a> {
     pub faults_delivered: usize,
     pub hard_delivered: bool,
     pub eof_sticky: bool,
+    pub nested: Nested<'a>,
+    pub nested_errors: Vec<String>,
+    pub reentered: usize,
 }
 
 impl<'a> SimReader<'a> {
@@ -420,6 +451,9 @@ impl<'a> SimReader<'a> {
             faults_delivered: 0,
             hard_delivered: false,
             eof_sticky: false,
+            nested: None,
+            nested_errors: Vec::new(),
+            reentered: 0,
         }
     }
 }
@@ -449,6 +483,9 @@ impl<'a> io::Read for SimReader<'a> {
             if cfg.r_eintr > 0 && rng.chance(cfg.r_eintr) {
                 return Some(RDec::Eintr);
             }
+            if cfg.r_reenter > 0 && rng.chance(cfg.r_reenter) {
+                return Some(RDec::Reenter);
+            }
             Some(RDec::Chunk(1 + rng.usize_below(cfg.r_chunk_max.max(1))))
         });
         let res = match dec {
@@ -462,6 +499,24 @@ impl<'a> io::Read for SimReader<'a> {
                 self.pos += n;
                 self.stats.inc(C::r_chunk);
                 self.log.byte(0x30);
+                Ok(n)
+            }
+            RDec::Reenter => {
+                if let Some(f) = self.nested {
+                    self.reentered += 1;
+                    self.stats.inc(C::r_reenter);
+                    match f() {
+                        None => self.stats.inc(C::nested_ops_ok),
+                        Some(e) => {
+                            self.stats.inc(C::nested_ops_wrong);
+                            self.nested_errors.push(e);
+                        }
+                    }
+                }
+                let n = left.min(cap);
+                buf[..n].copy_from_slice(&self.data[self.pos..self.pos + n]);
+                self.pos += n;
+                self.log.byte(0x36);
                 Ok(n)
             }
             RDec::Eintr => {
@@ -510,6 +565,9 @@ pub struct SimFmtSink<'a> {
     pub failed: usize,
     pub calls_after_failure: usize,
     pub calls: usize,
+    pub nested: Nested<'a>,
+    pub nested_errors: Vec<String>,
+    pub reentered: usize,
 }
 
 impl<'a> SimFmtSink<'a> {
@@ -525,6 +583,9 @@ impl<'a> SimFmtSink<'a> {
             failed: 0,
             calls_after_failure: 0,
             calls: 0,
+            nested: None,
+            nested_errors: Vec::new(),
+            reentered: 0,
         }
     }
 }
@@ -551,6 +612,9 @@ impl<'a> fmt::Write for SimFmtSink<'a> {
             if cfg.f_fail_t > 0 && rng.chance(cfg.f_fail_t) {
                 return Some(FDec::FailTransient);
             }
+            if cfg.f_reenter > 0 && rng.chance(cfg.f_reenter) {
+                return Some(FDec::Reenter);
+            }
             Some(FDec::Accept)
         });
         let site = site_class(s.as_bytes());
@@ -561,6 +625,23 @@ impl<'a> fmt::Write for SimFmtSink<'a> {
                 self.stats.inc(C::p_accept);
                 self.stats.reach.insert((site, 11, 0));
                 self.log.byte(0x40);
+                Ok(())
+            }
+            FDec::Reenter => {
+                if let Some(f) = self.nested {
+                    self.reentered += 1;
+                    self.stats.inc(C::p_reenter);
+                    self.stats.reach.insert((site, 12, 0));
+                    match f() {
+                        None => self.stats.inc(C::nested_ops_ok),
+                        Some(e) => {
+                            self.stats.inc(C::nested_ops_wrong);
+                            self.nested_errors.push(e);
+                        }
+                    }
+                }
+                self.out.push_str(s);
+                self.log.byte(0x44);
                 Ok(())
             }
             FDec::FailTransient => {
